@@ -399,6 +399,28 @@ def exec_ops(case, ops, op_timeout=60, emit=None):
                     rec.update(_output(built, case, op))
                     signal.alarm(0)
                     rec["status"] = "returned"
+                elif kind == "rg_keys":
+                    # the size of RandomGen's key space, computed with the enumerator's own counting methods exactly as
+                    # RandomGen.__sample combines them (preamble x per-round^rounds x leftover)
+                    from sweetpea._internal.sampling_strategy.random import UCSolutionEnumerator
+                    b = built.block
+                    with ir.quiet():
+                        en = UCSolutionEnumerator(b)
+                        per_round = en.solution_count()
+                        if per_round == 0:
+                            keys = 0
+                            rounds = leftover = 0
+                        else:
+                            tpr = b.trials_per_sample()
+                            rounds = (tpr - en._preamble_size) // en.crossing_size
+                            leftover = (tpr - en._preamble_size) % en.crossing_size
+                            keys = en.preamble_solution_count() * pow(per_round, rounds) * en.leftover_solution_count()
+                    signal.alarm(0)
+                    rec["status"] = "returned"
+                    rec["keys"] = keys if keys < 2 ** 62 else -1
+                    rec["per_round"] = per_round if per_round < 2 ** 62 else -1
+                    rec["rounds"] = rounds
+                    rec["leftover"] = leftover
                 elif kind == "still_sat":
                     # the compiled formula with one whole sequence pinned (unit clauses on its level variables):
                     # satisfiable iff the formula accepts exactly that sequence.  The first sequences also go through
